@@ -2,16 +2,44 @@
 
 MODULES = {
     "lib": dict(host="src/lib.rs", file="lib_harness.rs"),
+    "data": dict(host="src/solve/data.rs", file="data_harness.rs", prefix="solve::data::"),
 }
 
 # contract attributes spliced above real fn items (bodies untouched)
-ATTRS = []
+ATTRS = [
+    dict(file="src/solve/data.rs", path="impl RegretParams / fn gen_discount", lines=[
+        "kani::requires(discount == f64::NEG_INFINITY || discount == 0.0 || discount == f64::INFINITY)",
+        "kani::ensures(|r: &f64| (discount != f64::NEG_INFINITY || *r == 0.0) && (discount != 0.0 || *r == 0.5) && (discount != f64::INFINITY || *r == 1.0))",
+    ]),
+]
 
 def H(name, module, obligation, tier="quick", bounded=None, solver_cli=None, timeout=600, complete=False):
-    return dict(name=name, path="verif_kani_%s::%s" % (module, name), module=module, obligation=obligation,
+    return dict(name=name, path="%sverif_kani_%s::%s" % (MODULES[module].get("prefix", ""), module, name), module=module, obligation=obligation,
                 tier=tier, bounded=bounded, solver_cli=solver_cli, timeout=timeout, complete=complete)
 
+B3 = "slices of length <= 3; every element any finite f64 (regrets |r| <= 1e150 where stated); all u64 iteration numbers"
 HARNESSES = {
+    "C02": [
+        H("c02_cum_regret_formula", "data", "C02.K.cum_regret.formula", bounded=B3),
+    ],
+    "C05": [
+        H("c05_avg_strat_distribution", "data", "C05.K.avg_strat.distribution", bounded=B3),
+        H("c05_regret_infoset_new", "data", "C05.K.RegretInfoset_new.uniform", bounded="1..3 actions"),
+        H("c08_regret_match_positive", "data", "C05.K.regret_match.distribution", bounded=B3),
+        H("c08_regret_match_fallbacks", "data", "C05.K.regret_match.distribution", bounded=B3),
+        H("c05_regret_match_softmax", "data", "C05.K.regret_match.softmax", bounded=B3 + "; exp replaced by a sound interval model"),
+        H("c02_cum_regret_formula", "data", "C05.K.cum_regret.finite_nonneg", bounded=B3),
+    ],
+    "C08": [
+        H("c08_presets", "data", "C08.K.presets", complete=True),
+        H("c08_new_accepts", "data", "C08.K.new.accepts", complete=True),
+        H("c08_new_rejects", "data", "C08.K.new.rejects", complete=True),
+        H("c08_gen_discount_special", "data", "C08.K.gen_discount.special", complete=True),
+        H("c08_regret_match_positive", "data", "C08.K.regret_match.positive", bounded=B3),
+        H("c08_regret_match_fallbacks", "data", "C08.K.regret_match.fallbacks", bounded=B3),
+        H("c08_discount_cum_regret", "data", "C08.K.discount_cum_regret", bounded=B3),
+        H("c08_discount_average_strat", "data", "C08.K.discount_average_strat", bounded=B3),
+    ],
     "C18": [
         H("c18_truncate_valid", "lib", "C18.K.truncate.valid",
           bounded="infoset sizes {2,2} / {2}; entries any f64 in [0,1]; threshold any non-NaN f64"),
